@@ -20,7 +20,7 @@ template <class E> fmm::Segment starpuSegment(long nQ, long nT, bool tsan) {
         const auto sc = sch::schedulesFor(r, th, tsan);
         res.desc = fmm::confDesc<E>(c) + " executor=TbfSmStarpuAlgorithm(mock runtime) schedules=" + vh::str(sc.size());
         vh::announce(res.desc);
-        sch::ompSingle<E, TbfSmStarpuAlgorithm>(c, sc, res, "c03-starpu", tsan);
+        sch::ompSingle<E, TbfSmStarpuAlgorithm>(c, sc, res, "c03-starpu", tsan, true, false);
         res.sig = std::string("starpu:") + fmm::confSig<E>(c, vh::mix(c.seed, 9)); res.nontrivial = res.events["tasks-executed"] > long(sc.size()) * 3;
     };
     return s;
@@ -35,7 +35,7 @@ template <class E> fmm::Segment starpuTsmSegment(long nQ, long nT, bool tsan) {
         const auto sc = sch::schedulesFor(r, th, tsan);
         res.desc = fmm::tsmDesc<E>(c) + " executor=TbfSmStarpuAlgorithmTsm(mock runtime) schedules=" + vh::str(sc.size());
         vh::announce(res.desc);
-        sch::ompTsm<E, TbfSmStarpuAlgorithmTsm>(c, sc, res, "c09-starpu", tsan);
+        sch::ompTsm<E, TbfSmStarpuAlgorithmTsm>(c, sc, res, "c09-starpu", tsan, true, false);
         res.sig = "starpu-tsm:D" + vh::str(E::Cfg::Dim) + "," + vh::str(vh::mix(c.seed, 10)); res.nontrivial = res.events["tasks-executed"] > long(sc.size()) * 3;
     };
     return s;
